@@ -10,6 +10,7 @@ import (
 	"maps"
 	"math"
 	"slices"
+	"strconv"
 	"strings"
 
 	"github.com/mazrean/kessoku/internal/pkg/collection"
@@ -49,13 +50,13 @@ func createASTTypeExpr(pkg string, t types.Type, varPool *VarPool, imports map[s
 				}
 			}
 
-			return &ast.SelectorExpr{
+			return withTypeArgs(&ast.SelectorExpr{
 				X:   ast.NewIdent(pkgName),
 				Sel: ast.NewIdent(name),
-			}, nil
+			}, typ.TypeArgs(), pkg, varPool, imports)
 		}
 
-		return ast.NewIdent(name), nil
+		return withTypeArgs(ast.NewIdent(name), typ.TypeArgs(), pkg, varPool, imports)
 	case *types.Alias:
 		name := typ.Obj().Name()
 		if objPkg := typ.Obj().Pkg(); objPkg != nil && objPkg.Path() != pkg {
@@ -159,9 +160,18 @@ func createASTTypeExpr(pkg string, t types.Type, varPool *VarPool, imports map[s
 	case *types.Signature:
 		funcFields := make([]*ast.Field, 0, typ.Params().Len())
 		for i := 0; i < typ.Params().Len(); i++ {
-			expr, err := createASTTypeExpr(pkg, typ.Params().At(i).Type(), varPool, imports)
+			paramType := typ.Params().At(i).Type()
+			isVariadic := typ.Variadic() && i == typ.Params().Len()-1
+			if slice, ok := paramType.(*types.Slice); ok && isVariadic {
+				paramType = slice.Elem()
+			}
+
+			expr, err := createASTTypeExpr(pkg, paramType, varPool, imports)
 			if err != nil {
 				return nil, fmt.Errorf("param %d: %w", i, err)
+			}
+			if isVariadic {
+				expr = &ast.Ellipsis{Elt: expr}
 			}
 			funcFields = append(funcFields, &ast.Field{
 				Names: []*ast.Ident{ast.NewIdent(fmt.Sprintf("arg%d", i))},
@@ -194,10 +204,20 @@ func createASTTypeExpr(pkg string, t types.Type, varPool *VarPool, imports map[s
 			if err != nil {
 				return nil, fmt.Errorf("field %d: %w", i, err)
 			}
-			fields = append(fields, &ast.Field{
+			field := &ast.Field{
 				Names: []*ast.Ident{ast.NewIdent(typ.Field(i).Name())},
 				Type:  expr,
-			})
+			}
+			if typ.Field(i).Embedded() {
+				field.Names = nil
+			}
+			if tag := typ.Tag(i); tag != "" {
+				field.Tag = &ast.BasicLit{
+					Kind:  token.STRING,
+					Value: strconv.Quote(tag),
+				}
+			}
+			fields = append(fields, field)
 		}
 		return &ast.StructType{
 			Fields: &ast.FieldList{
@@ -207,6 +227,28 @@ func createASTTypeExpr(pkg string, t types.Type, varPool *VarPool, imports map[s
 	default:
 		return nil, fmt.Errorf("unsupported type: %s", t.String())
 	}
+}
+
+// withTypeArgs appends the type arguments of an instantiated generic type.
+func withTypeArgs(expr ast.Expr, typeArgs *types.TypeList, pkg string, varPool *VarPool, imports map[string]*Import) (ast.Expr, error) {
+	if typeArgs == nil || typeArgs.Len() == 0 {
+		return expr, nil
+	}
+
+	indices := make([]ast.Expr, 0, typeArgs.Len())
+	for i := 0; i < typeArgs.Len(); i++ {
+		arg, err := createASTTypeExpr(pkg, typeArgs.At(i), varPool, imports)
+		if err != nil {
+			return nil, fmt.Errorf("type argument %d: %w", i, err)
+		}
+		indices = append(indices, arg)
+	}
+
+	if len(indices) == 1 {
+		return &ast.IndexExpr{X: expr, Index: indices[0]}, nil
+	}
+
+	return &ast.IndexListExpr{X: expr, Indices: indices}, nil
 }
 
 func CreateInjector(metaData *MetaData, build *BuildDirective, varPool *VarPool) (*Injector, error) {
